@@ -285,7 +285,7 @@ example :
     estimate env0.multi env0.bracket rd0 (.comp .or [.term 0 [98] 1, .pre 0 [] 1 true] 1) = some 2
       ∧ estimate env0.multi env0.bracket rd0 (.comp .and [.term 0 [98] 1, .pre 0 [] 1 true] 1) = some 2
       ∧ estimate env0.multi env0.bracket rd0 (.phrase 0 [[97], [98]] 1 1) = some 1
-      ∧ estimate env0.multi env0.bracket rd0 (.comp .and [] 1) = none
+      ∧ estimate env0.multi env0.bracket rd0 (.comp .and [] 1) = some 0
       ∧ (answer env0 (.comp .or [.term 0 [98] 1, .pre 0 [] 1 true] 1)).length = 2 := by
   refine ⟨by decide +kernel, by decide +kernel, by decide +kernel, by decide +kernel, by decide +kernel⟩
 
